@@ -360,9 +360,14 @@ def convert_resize_1x1_to_add(op):
     quantization = QuantizationParameters(0.0, 255.0)
     quantization.scale_f32 = 1.0
     quantization.zero_point = 0
+    # The operator's own shapes are kept, the tensors may carry the shape of a bypassed reshape
+    ifm_shape = op.ifm_shapes[0]
+    ofm_shape = op.ofm_shapes[0]
     op.inputs[1] = op.inputs[0]
     op.set_input_tensor(create_const_tensor(name, shape, dtype, values, quantization=quantization), 0)
     op.set_ifm_ofm_shapes()
+    op.ifm_shapes = [ofm_shape, ifm_shape]
+    op.ofm_shapes = [ofm_shape]
     DebugDatabase.add_optimised(op, op)
 
     return op
@@ -751,10 +756,13 @@ def convert_resizebilinear_to_depthwise_convolutions(op, half_pixel_centers=True
         ofm.ops = []
         elem_size = 2 if ofm.dtype == DataType.int16 else 1
 
-        n, h, w, c = ifm.shape
-        _, _, ow, _ = ofm.shape
+        # The operator's own shapes are used, the tensors may carry the shape of a bypassed reshape
+        ifm_shape = op.ifm_shapes[0]
+        ofm_shape = op.ofm_shapes[0]
+        n, h, w, c = ifm_shape.as_list()
+        ow = ofm_shape.width
 
-        intermediate_tens = Tensor(ifm.shape, ifm.dtype, "intermediate_tens")
+        intermediate_tens = Tensor(ifm_shape.as_list(), ifm.dtype, "intermediate_tens")
         intermediate_tens.quantization = op.outputs[0].quantization.clone()
         avgpool_op = op
         avgpool_op.name = "rb_init_avgpool"
@@ -770,6 +778,7 @@ def convert_resizebilinear_to_depthwise_convolutions(op, half_pixel_centers=True
         avgpool_op.add_input_tensor(ifm)
         avgpool_op.set_output_tensor(intermediate_tens)
         avgpool_op.set_ifm_ofm_shapes()
+        avgpool_op.ifm_shapes[0] = ifm_shape
         DebugDatabase.add_optimised(op, op)
 
         dw_conv = Operation(Op.DepthwiseConv2DBias, "depthwise_conv")
@@ -827,13 +836,14 @@ def convert_resizebilinear_to_depthwise_convolutions(op, half_pixel_centers=True
                 fixup_bias_tensors(dw_conv, None, None, dtype=DataType.int32)
 
                 dw_conv.set_ifm_ofm_shapes()
+                dw_conv.ofm_shapes[0] = ofm_shape
                 DebugDatabase.add_optimised(op, dw_conv)
 
                 dw_conv = dw_conv.clone(f"_{index}")
         return op
 
-    _, input_height, input_width, _ = op.ifm.shape
-    _, output_height, output_width, _ = op.ofm.shape
+    _, input_height, input_width, _ = op.ifm_shapes[0].as_list()
+    _, output_height, output_width, _ = op.ofm_shapes[0].as_list()
 
     kernels = _compute_kernels(input_height, input_width, output_height, output_width)
     op = _build_convolutions(op, kernels)
